@@ -228,6 +228,17 @@ func (_this *Context) NotifyKey(key interface{}) {
 		if v >= 0 {
 			key = uint64(v)
 		}
+	case negint:
+		// The magnitude of a negative integer: use the same key as the other events that can
+		// carry the value (OnInt, OnBigInt), so that duplicates are found across encodings.
+		switch {
+		case v == 0:
+			// Negative zero stays a key of its own.
+		case uint64(v) <= 1<<63:
+			key = int64(-v)
+		default:
+			key = [2]big.Word{^big.Word(0), big.Word(v)}
+		}
 	case uint:
 		key = uint64(v)
 	case uint8:
